@@ -97,7 +97,7 @@ func (f *STFS) Create(name string) (afero.File, error) {
 
 	name = cleanName(name)
 
-	if _, err := inventory.Stat(
+	if parent, err := inventory.Stat(
 		f.metadata,
 
 		filepath.Dir(name),
@@ -110,6 +110,8 @@ func (f *STFS) Create(name string) (afero.File, error) {
 		}
 
 		return nil, err
+	} else if parent.Typeflag != tar.TypeDir {
+		return nil, config.ErrIsFile
 	}
 
 	return f.OpenFile(name, os.O_RDWR|os.O_CREATE|os.O_TRUNC, 0666)
@@ -289,7 +291,7 @@ func (f *STFS) Mkdir(name string, perm os.FileMode) error {
 	f.ioLock.Lock()
 	defer f.ioLock.Unlock()
 
-	if _, err := inventory.Stat(
+	if parent, err := inventory.Stat(
 		f.metadata,
 
 		filepath.Dir(name),
@@ -302,6 +304,8 @@ func (f *STFS) Mkdir(name string, perm os.FileMode) error {
 		}
 
 		return err
+	} else if parent.Typeflag != tar.TypeDir {
+		return config.ErrIsFile
 	}
 
 	if hdr, err := inventory.Stat(
@@ -479,7 +483,7 @@ func (f *STFS) OpenFile(name string, flag int, perm os.FileMode) (afero.File, er
 
 			createFile := func() error {
 				if !f.readOnly && flag&os.O_CREATE != 0 {
-					if _, err := inventory.Stat(
+					if parent, err := inventory.Stat(
 						f.metadata,
 
 						filepath.Dir(name),
@@ -492,6 +496,8 @@ func (f *STFS) OpenFile(name string, flag int, perm os.FileMode) (afero.File, er
 						}
 
 						return err
+					} else if parent.Typeflag != tar.TypeDir {
+						return config.ErrIsFile
 					}
 
 					if target, err := inventory.Stat(
@@ -765,7 +771,7 @@ func (f *STFS) Rename(oldname, newname string) error {
 		}
 	}
 
-	if _, err := inventory.Stat(
+	if parent, err := inventory.Stat(
 		f.metadata,
 
 		filepath.Dir(newname),
@@ -778,6 +784,8 @@ func (f *STFS) Rename(oldname, newname string) error {
 		}
 
 		return err
+	} else if parent.Typeflag != tar.TypeDir {
+		return config.ErrIsFile
 	}
 
 	target, err := inventory.Stat(
@@ -1172,7 +1180,7 @@ func (f *STFS) SymlinkIfPossible(oldname, newname string) error {
 	f.ioLock.Lock()
 	defer f.ioLock.Unlock()
 
-	if _, err := inventory.Stat(
+	if parent, err := inventory.Stat(
 		f.metadata,
 
 		filepath.Dir(newname),
@@ -1185,6 +1193,8 @@ func (f *STFS) SymlinkIfPossible(oldname, newname string) error {
 		}
 
 		return err
+	} else if parent.Typeflag != tar.TypeDir {
+		return config.ErrIsFile
 	}
 
 	if pathext.IsRoot(rawNewName, false) && pathext.IsRoot(rawOldName, false) {
